@@ -110,7 +110,7 @@ def run(ctx):
                  "source untouched; extracted copy model (generated count/indices) exact.")
     coq = vp_coq.full_check("C01", ctx, fams=("kick", "fp", "run", "round"))
     nk = 120 if ctx.quick() else 3000
-    cases = kc.gen_cases(ctx, nk) + farshift_cases(ctx, 24 if ctx.quick() else 400) + kc.edge_cases(ctx, 52 if ctx.quick() else 800)
+    cases = kc.gen_cases(ctx, nk) + farshift_cases(ctx, 24 if ctx.quick() else 400) + kc.with_rng(ctx, 101, kc.edge_cases, ctx, 52 if ctx.quick() else 800)
     res = kc.run_cases(ctx, cases)
     dis = []
     for c in cases:
